@@ -562,6 +562,8 @@ class PenlogReader:
 
     def _parse_file_structure(self) -> None:
         old_offset = self.file_mmap.tell()
+        # The table describes the whole file, regardless of what has been read so far
+        self.file_mmap.seek(0)
 
         while True:
             self._record_offsets.append(self.file_mmap.tell())
